@@ -31,7 +31,8 @@ type spec struct {
 	// soft time budget per tier for the workers (they stop cleanly, exhaustive:false)
 	BudgetQuick, BudgetThorough time.Duration
 	Workers                     int
-	Procs                       int // GOMAXPROCS of each worker (default 2; 1 is fastest under the cooperative scheduler)
+	Procs                       int  // GOMAXPROCS of each worker (default 2; 1 is fastest under the cooperative scheduler)
+	Race                        bool // also run the free-running -race pass (cmd/racepass)
 	Design                      string
 }
 
@@ -352,6 +353,54 @@ func main() {
 		}
 	}
 
+	// 4b. auxiliary free-running pass under the race detector (samples schedules; a reported race is a violation)
+	racePass := map[string]any{}
+	if sp.Race {
+		rbin := filepath.Join(work, "racepass")
+		cmd := exec.Command("go", "build", "-race", "-tags", strings.ToLower(id), "-o", rbin, "./cmd/racepass")
+		cmd.Dir = verifDir
+		cmd.Env = env()
+		if out, err := cmd.CombinedOutput(); err != nil {
+			fmt.Fprintf(os.Stderr, "race pass build failed: %v\n%s\n", err, out)
+			exit(2)
+		}
+		reps := "20"
+		if tier == "thorough" {
+			reps = "200"
+		}
+		ctx, cancel := context.WithTimeout(context.Background(), 10*time.Minute)
+		rc := exec.CommandContext(ctx, rbin, id, reps)
+		rc.Env = append(os.Environ(), "GORACE=halt_on_error=0")
+		out, rerr := rc.CombinedOutput()
+		cancel()
+		txt := string(out)
+		races := strings.Count(txt, "WARNING: DATA RACE")
+		racePass["races"] = races
+		if m := regexp.MustCompile(`RACEPASS runs=(\d+)`).FindStringSubmatch(txt); m != nil {
+			n, _ := strconv.Atoi(m[1])
+			racePass["runs"] = n
+		}
+		if races > 0 {
+			i := strings.Index(txt, "WARNING: DATA RACE")
+			e := i + 1500
+			if e > len(txt) {
+				e = len(txt)
+			}
+			// identify the race by the first poly source line in the report
+			site := ""
+			if m := regexp.MustCompile(`/repo/([^\s:]+:\d+)`).FindStringSubmatch(txt[i:]); m != nil {
+				site = m[1]
+			}
+			confirmed = append(confirmed, mc.Failure{Clause: "data-race", Unit: "race", Case: "free-running -race pass: data race at " + site, Tags: []string{"race"}, Expected: "no data race", Got: txt[i:e]})
+		} else if rerr != nil && ctx.Err() == nil {
+			e := len(txt)
+			if e > 1500 {
+				txt = txt[e-1500:]
+			}
+			confirmed = append(confirmed, mc.Failure{Clause: "free-running-pass", Unit: "race", Case: "free-running pass ended abnormally", Tags: []string{"race"}, Expected: "every repetition completes", Got: txt})
+		}
+	}
+
 	// 5. classify against the known-findings file (read-only)
 	var findings []finding
 	if b, err := os.ReadFile(filepath.Join(verifDir, "known_findings.json")); err == nil {
@@ -426,6 +475,7 @@ func main() {
 		"failing_cases_total":           total.FailCount,
 		"explanation":                   "every explored trace is an execution of the implementation built from the current /repo tree; there is no separate model whose traces need replaying",
 		"instrumentation":               nz(notes),
+		"race_pass":                     racePass,
 	}
 	ev := map[string]any{
 		"property_id": id,
